@@ -9,6 +9,10 @@ from pyvc.core import Unsupported
 
 def main():
     repo = '/repo'
+    if '--repo' in sys.argv:
+        k = sys.argv.index('--repo')
+        repo = sys.argv[k + 1]
+        del sys.argv[k:k + 2]
     pat = sys.argv[1] if len(sys.argv) > 1 else ''
     import contracts
     R = Registry(); R.tasks = []
